@@ -70,6 +70,7 @@ type vfWorld struct {
 	qBad, qAdd            int64
 	zVal                  int64
 	zFail                 bool
+	yVal                  bool
 	opsLoaded             bool
 	failValue             bool // failing custom operators return a zero value together with the error
 
@@ -105,6 +106,10 @@ func vfIsVarName(s string) bool {
 
 // newWorld declares the variables and constants that occur in the tree.
 // Values are created lazily (on first use) so that unused names cost nothing.
+// vfRawConsts makes integer constants plain Go ints (a ConstantMap value keeps its Go type; only
+// int64 is an integer to the operators).
+var vfRawConsts bool
+
 func newWorld(tree *refNode, suffix string) *vfWorld {
 	w := &vfWorld{vars: map[string]*vfVar{}, consts: map[string]Value{}, ops: map[string]Operator{}, suffix: suffix}
 	var leaves []*refNode
@@ -118,6 +123,8 @@ func newWorld(tree *refNode, suffix string) *vfWorld {
 			if _, ok := w.consts[l.atom]; !ok {
 				if vfIsBoolName(l.atom) {
 					w.consts[l.atom] = vfBool(l.atom + suffix)
+				} else if vfRawConsts {
+					w.consts[l.atom] = int(vfInt64(l.atom + suffix))
 				} else {
 					w.consts[l.atom] = vfInt64(l.atom + suffix)
 				}
@@ -135,6 +142,7 @@ func newWorld(tree *refNode, suffix string) *vfWorld {
 	w.ops["p"] = w.opP
 	w.ops["q"] = w.opQ
 	w.ops["z"] = w.opZ
+	w.ops["y"] = w.opY
 	w.markBoolCtx(tree, false)
 	return w
 }
@@ -203,6 +211,7 @@ func (w *vfWorld) loadOps() {
 	w.pFlip = vfBool("p.flip" + w.suffix)
 	w.qAdd = vfInt64("q.add" + w.suffix)
 	w.zVal = vfInt64("z.val" + w.suffix)
+	w.yVal = vfBool("y.val" + w.suffix)
 	if w.opsFail {
 		w.zFail = vfBool("z.fail" + w.suffix)
 	}
@@ -361,6 +370,26 @@ func (w *vfWorld) opZ(_ *Ctx, ps []Value) (Value, error) {
 	rec.res = w.zVal
 	w.record(rec)
 	return w.zVal, nil
+}
+
+// custom operator y: no operands → bool, one arbitrary value per world, fails together with z
+func (w *vfWorld) opY(_ *Ctx, ps []Value) (Value, error) {
+	w.loadOps()
+	w.zCalls++
+	rec := vfRec{kind: recCall, name: "y", nargs: len(ps)}
+	if len(ps) != 0 {
+		rec.failed = true
+		w.record(rec)
+		return nil, errVfArity
+	}
+	if w.opsFail && w.zFail {
+		rec.failed = true
+		w.record(rec)
+		return nil, errVfQ
+	}
+	rec.res = w.yVal
+	w.record(rec)
+	return w.yVal, nil
 }
 
 // ---------------------------------------------------------------------------
